@@ -34,6 +34,7 @@ import (
 
 	"github.com/go-openapi/runtime"
 	"github.com/go-openapi/runtime/middleware/denco"
+	"github.com/go-openapi/runtime/verifhook"
 )
 
 // RouteParam is a object to capture route params in a framework agnostic way.
@@ -223,6 +224,7 @@ func (ra *RouteAuthenticator) Authenticate(req *http.Request, route *MatchedRout
 				Request:        req,
 				RequiredScopes: ra.Scopes[scheme],
 			})
+			verifhook.At("mw.auth.scheme")
 			if !applies {
 				return false, nil, nil
 			}
